@@ -282,14 +282,21 @@ class HTTPConnectionPool(ConnectionPool, RequestMethods):
                     self,
                     "Pool is empty and a new connection can't be opened due to blocking mode.",
                 ) from None
-            pass  # Oh well, we'll create a new connection then
+            # Oh well, we'll create a new connection then
+            return self._new_conn()
 
-        # If this is a persistent connection, check if it got disconnected
-        if conn and is_connection_dropped(conn):
-            log.debug("Resetting dropped connection: %s", self.host)
-            conn.close()
+        try:
+            # If this is a persistent connection, check if it got disconnected
+            if conn and is_connection_dropped(conn):
+                log.debug("Resetting dropped connection: %s", self.host)
+                conn.close()
 
-        return conn or self._new_conn()
+            return conn or self._new_conn()
+        except BaseException:
+            # An item was taken from the pool, but the caller gets no
+            # connection to put back: return the slot before failing.
+            self._put_conn(None)
+            raise
 
     def _put_conn(self, conn: BaseHTTPConnection | None) -> None:
         """
@@ -871,7 +878,11 @@ class HTTPConnectionPool(ConnectionPool, RequestMethods):
                 if conn:
                     conn.close()
                     conn = None
-                release_this_conn = True
+                    release_this_conn = True
+                else:
+                    # _get_conn() raised: nothing was taken from the pool, so
+                    # there is nothing to put back either.
+                    release_this_conn = False
 
             if release_this_conn:
                 # Put the connection back to be reused. If the connection is
